@@ -31,6 +31,9 @@ CP_CLASSES = [
     (lambda r: r.choice([0x2028, 0x2029, 0xFFFF, 0xFFFD, 0x800, 0xD7FF, 0xE000, 0x20AC, 0x3042]), 1),
     (lambda r: r.choice([0x10000, 0x1F603, 0x10FFFF, 0x1D11E, 0xFFFFF, 0xE0067, 0xE0001, 0xE007F]), 1),    # astral, tag characters
     (lambda r: r.choice([0xAD, 0x200B, 0x200E, 0x202E, 0x2060, 0xFEFF, 0x80, 0x9F, 0x61D]), 1),            # invisible / formatting characters
+    # the top of the basic plane: code points whose bit patterns are close to those of the surrogates (private use, compatibility forms, non-characters)
+    (lambda r: r.choice([0xF800, 0xF8FF, 0xF900, 0xFA6A, 0xFB01, 0xFBFF, 0xFC00, 0xFE00, 0xFDD0, 0xFFFE, 0xD000, 0xDFFF + 1, 0xEFFF, 0xF000]), 1),
+    (lambda r: (lambda c: c if not 0xD800 <= c <= 0xDFFF else 0xE000 + (c & 0x7FF))(r.randrange(0x800, 0x10000)), 1),      # anywhere in the basic plane
 ]
 
 
